@@ -27,11 +27,17 @@ DEFAULT_RUNS = {'C01': 1400, 'C02': 3000, 'C03': 3000, 'C05': 300,
                 'C13': 6000, 'C20': 3000}
 
 
+# first run index: C13's batch begins with a long sweep layer; start shortly
+# before its end so that sweep and sampled histories are both covered
+START = {'C13': 271200 - 2000}
+
+
 def batch_digest(pid, runs, workers, hashseed, seed):
     env = dict(os.environ, PYTHONHASHSEED=str(hashseed),
                PYTHONDONTWRITEBYTECODE='1', VERIF_SEED=str(seed))
     p = subprocess.run([os.path.join(VERIF, 'check'), pid, '--runs',
                         str(runs), '--workers', str(workers),
+                        '--start', str(START.get(pid, 0)),
                         '--digest-only'], env=env, capture_output=True,
                        text=True)
     m = re.search(r'BATCH-DIGEST (\w+) runs=(\d+)', p.stdout)
@@ -49,7 +55,7 @@ core.import_sut()
 chk = runner.load_check(%r)
 chk.setup()
 bad = 0
-for i in range(%d):
+for i in range(%d, %d):
     rs = core.derive_run_seed(%r, %d, i)
     c1 = chk.gen(core.Streams(rs), 'quick', i, %d)
     c2 = chk.gen(core.Streams(rs), 'quick', i, %d)
@@ -60,7 +66,8 @@ for i in range(%d):
     if d1 != d2:
         print('EXEC-DIVERGES', i, d1, d2); bad += 1
 print('TWICE-OK' if not bad else 'TWICE-BAD %%d' %% bad)
-''' % (VERIF, pid, n, pid, seed, n, n)
+''' % (VERIF, pid, START.get(pid, 0), START.get(pid, 0) + n, pid, seed,
+       START.get(pid, 0) + n, START.get(pid, 0) + n)
     p = subprocess.run([sys.executable, '-c', code], capture_output=True,
                        text=True, env=dict(os.environ, PYTHONHASHSEED='3'))
     return 'TWICE-OK' in p.stdout, p.stdout[-500:] + p.stderr[-500:]
